@@ -474,6 +474,7 @@ theorem tie_skel_Session_initMemManager : Gen.Skel.Session_initMemManager = [
   "}",
   "if qm, err = createQueueManager(s.config.QueuePath, s.config.QueueCap); err != nil {",
   "os.Remove(s.config.QueuePath)",
+  "addGlobalBufferManagerRefCount(bm.path, -1)",
   "return fmt.Errorf(\"create share memory queue manager failed ,error=%w\", err)",
   "}",
   "} else {",
@@ -482,6 +483,7 @@ theorem tie_skel_Session_initMemManager : Gen.Skel.Session_initMemManager = [
   "return fmt.Errorf(\"create share memory buffer manager failed ,error=%w\", err)",
   "}",
   "if qm, err = createQueueManagerWithMemFd(s.config.QueuePath, s.config.QueueCap); err != nil {",
+  "addGlobalBufferManagerRefCount(bm.path, -1)",
   "return fmt.Errorf(\"create share memory queue manager failed ,error=%w\", err)",
   "}",
   "}",
